@@ -445,6 +445,7 @@ func runC18JoinGuards(c *Ctx) {
 	} else {
 		c.touch(fnKey(fn))
 		s := newS(0)
+		s.HelperInline = purePredicate(p, fn) // the vacancy test may be shared through a helper
 		var bad []string
 		found := false
 		for _, l := range s.loops(fn) {
